@@ -411,6 +411,11 @@ static void run_tuple(const Fn& f, int n, const std::vector<bool>& ip, const dou
       if (v == V_MISMATCH)
         viol(f, dn + " mismatch", x, n, ctx + ",\"returned\":" + num17(a) + ",\"central_differences\":[" + est +
              "],\"value\":" + num17(r.v));
+      // the central quotients are stable, the returned number is far from them and equals one ONE-SIDED quotient:
+      // the value has a kink here, the derivative does not exist, and the property asks for an error message
+      if (v == V_KINK)
+        viol(f, dn + " returned at a kink of the value (equals a one-sided quotient only; no Errmsg)", x, n,
+             ctx + ",\"returned\":" + num17(a) + ",\"central_differences\":[" + est + "],\"value\":" + num17(r.v));
     }
     if (mode < 2) continue;
     // ---- second derivatives
